@@ -134,7 +134,7 @@ def _run_cat(job):
     return {"case": c, "applied": True, "wb": wb, "fmt": fmt, "res": res, "trace": trace, "idents": idents}
 
 
-_CHOICE_MUTS = {"choice_noname", "dup_choice", "selm_choice_space"}
+_CHOICE_MUTS = {"choice_noname", "dup_choice", "dup_choice_labelless", "dup_choice_first_labelless", "selm_choice_space"}
 
 
 def cat_sheet(c):
